@@ -162,7 +162,7 @@ def correspondence(ctx):
         c.error = "cannot set up the custom-exception pool: %r" % (ex,)
         return c
     r = Rng(ctx.seed).fork("c09")
-    specs, custom = vc.gen_specs(r, ctx.budget(4, 20))
+    specs, custom = vc.gen_specs(r, ctx.budget(3, 20))
     lines, metas = [], []          # metas: (case, keys, obs, info, label, sig)
     t0 = time.time()
 
@@ -218,7 +218,7 @@ def correspondence(ctx):
             c.count("skipped:" + str(ex)[:40])
     t1 = time.time()
     # 2. crafted payloads, direct
-    for _ in range(ctx.budget(6000, 150000)):
+    for _ in range(ctx.budget(5000, 150000)):
         p, rr = vc.gen_payload(r), r.choice(RECVS)
         try:
             line, obs, info = vc.run_payload_direct(p, rr)
@@ -280,7 +280,7 @@ def correspondence(ctx):
     relays = {}
     try:
         allspecs = specs + custom
-        for k in range(ctx.budget(500, 6000)):
+        for k in range(ctx.budget(350, 6000)):
             key = (r.choice(SENDS) + "FF", r.choice(["FFF", "TTF", "FTF"]), r.choice(SENDS) + "FF", r.choice(["FFF", "TTT", "FTF"])) \
                 if len(relays) < ctx.budget(10, 40) else r.choice(sorted(relays))
             if key not in relays:
